@@ -29,7 +29,7 @@ def make_vectorizable(func: callable, backend: str):
     tree = _make_vectorizable_ast(func, module=module)
 
     # recreate scope of function and add array library
-    scope = func.__globals__
+    scope = dict(func.__globals__)
     scope[module] = import_module(module)
 
     # execute new ast
